@@ -431,7 +431,7 @@ func (w *opsWorld) checkArchive() (string, string) {
 		if wk.Offset != uint32(i)*mWeek {
 			return "archive/not-contiguous", fmt.Sprintf("archived week %d has offset %d", i, wk.Offset)
 		}
-		if !glow.Verify(w.Srv.Pub, refWeekSigningBytes(wk), wk.Sig) {
+		if !refVerify(w.Srv.Pub, refWeekSigningBytes(wk), wk.Sig) {
 			return "archive/signature", fmt.Sprintf("archived week %d on disk does not verify", i)
 		}
 		want := w.M.Archive[i].Devices
